@@ -101,7 +101,7 @@ func FromCbor(data []byte) (Reader, error) {
 
 // FromCborReader is the same as FromCbor, but with an io.Reader.
 func FromCborReader(r io.Reader) (Reader, error) {
-	n, err := ipld.DecodeStreaming(r, dagcbor.Decode)
+	n, err := ipld.DecodeStreaming(noEmptyReads{r: r}, dagcbor.Decode)
 	if err != nil {
 		return nil, err
 	}
@@ -205,4 +205,24 @@ func (ctn Reader) addToken(data []byte) error {
 	}
 	ctn[c] = tkn
 	return nil
+}
+
+// noEmptyReads retries a Read that returned (0, nil): io.Reader permits such a
+// read and asks callers to treat it as "nothing happened", but the IPLD stream
+// decoder mistakes it for a zero byte.
+type noEmptyReads struct {
+	r io.Reader
+}
+
+func (n noEmptyReads) Read(p []byte) (int, error) {
+	if len(p) == 0 {
+		return n.r.Read(p)
+	}
+	for i := 0; i < 100; i++ {
+		k, err := n.r.Read(p)
+		if k > 0 || err != nil {
+			return k, err
+		}
+	}
+	return 0, io.ErrNoProgress
 }
